@@ -322,11 +322,21 @@ def run(ctx):
             v = np.lib.stride_tricks.as_strided(buf[200:], shape=(n, d), strides=(8 * s0, 8 * s1))
             ops.append({"op": "view", "n": n, "d": d, "s0": s0, "s1": s1})
         views.append(v)
+    for _ in range(100 if ctx.thorough else 30):
+        n, ln, d = rng.randint(1, 4), rng.randint(1, 4), rng.randint(1, 3)
+        kind = rng.choice(["c", "rand", "rand"])
+        st = (ln * d, d, 1) if kind == "c" else (rng.choice([ln * d, 1, 2 * ln * d, d]), rng.choice([d, 1, n, 2 * d]),
+                                                  rng.choice([1, 1, 2, n * ln]))
+        v = np.lib.stride_tricks.as_strided(buf[200:], shape=(n, ln, d), strides=tuple(8 * x for x in st))
+        ops.append({"op": "view", "n": n, "len": ln, "d": d, "s0": st[0], "s1": st[1], "s2": st[2]})
+        views.append(v)
     for op, v, mo in zip(ops, views, ctx.driver.run(ops)):
         res.evaluations += 1
         res.hit("view_model")
         if v.size == 0:
             continue        # NumPy reports every empty array as contiguous in both orders
+        if v.ndim == 3:
+            res.hit("view_model_3d")
         if bool(v.flags.c_contiguous) != mo["c"] or (v.ndim == 2 and bool(v.flags.f_contiguous) != mo["f"]):
             res.mismatches.append({"what": "contiguity flags of the Lean view model differ from NumPy", "view": op,
                                    "numpy": [bool(v.flags.c_contiguous), bool(v.flags.f_contiguous)], "model": mo})
